@@ -116,10 +116,10 @@ public:
              const LeafSymbolicDataTarget& inParticlesIndex, const long int targetIndexes[],
              const ParticlesClassValuesTarget& inOutParticles,
              ParticlesClassRhs& inOutParticlesRhs, const long int inNbOutParticles,
-             const long arrayIndexSrc) const {
+             const long arrayIndexSrc) {
         counters.P2P.start();
-        RealKernel::P2P(inNeighborIndex, inParticlesNeighbors, neighborsIndexes, inNbParticlesNeighbors, inParticlesIndex,
-                        targetIndexes, inOutParticles, inOutParticlesRhs, inNbOutParticles, arrayIndexSrc);
+        RealKernel::P2PTsm(inNeighborIndex, neighborsIndexes, inParticlesNeighbors, inNbParticlesNeighbors, inParticlesIndex,
+                           targetIndexes, inOutParticles, inOutParticlesRhs, inNbOutParticles, arrayIndexSrc);
         counters.P2P.stop();
     }
 
